@@ -532,6 +532,13 @@ func (w *World) BuildMsg(e Event) (msg sdk.Msg, commit func()) {
 				w.Bot.Refunded = append(w.Bot.Refunded, ids...)
 			}
 		}
+		if e.Var == "reversed" {
+			// the relayer lists the ids the other way round: refunds are queued, numbered and handed
+			// over in the order of the message, not of the ids
+			for i, j := 0, len(ids)-1; i < j; i, j = i+1, j-1 {
+				ids[i], ids[j] = ids[j], ids[i]
+			}
+		}
 		return &bitcointypes.MsgApproveCancellation{Proposer: rel.Proposer, Id: ids}, func() {
 			w.Bot.Canceling = w.Bot.Canceling[len(ids):]
 			w.Bot.Refunded = append(w.Bot.Refunded, ids...)
